@@ -162,7 +162,13 @@ fn closein_fn<const N: usize, S: HasComponent<Component<N>>>(
 /// Get the `\read` execution primitive.
 pub fn get_read<const N: usize, S: HasComponent<Component<N>> + common::HasTerminalIn>(
 ) -> command::BuiltIn<S> {
-    command::BuiltIn::new_execution(read_fn)
+    command::BuiltIn::new_execution(read_fn).with_tag(read_tag())
+}
+
+static READ_TAG: command::StaticTag = command::StaticTag::new();
+
+pub fn read_tag() -> command::Tag {
+    READ_TAG.get()
 }
 
 fn read_fn<const N: usize, S: HasComponent<Component<N>> + common::HasTerminalIn>(
